@@ -1,8 +1,9 @@
 #!/bin/sh
+SFX=${1:-b}
 # process every finished b-series seed that has not been processed yet: confirm + run its check
 mkdir -p /tmp/seed/done
-for j in /tmp/seed/*-b.json; do
-  n=$(basename $j .json); p=${n%-b}
+for j in /tmp/seed/*-$SFX.json; do
+  n=$(basename $j .json); p=${n%-$SFX}
   [ -f /tmp/seed/done/$n ] && continue
   [ -f /tmp/seed/$n.patch ] || continue
   c=$(/verif/confirm_seed.sh $n 2>&1 | tail -1)
